@@ -1851,3 +1851,320 @@ Theorem C02_bridge_write_read_frames_example : exists w Wd rt sm,
   = [Some 0; None; Some 1; Some 2]%nat.
 Proof. exact X12.BridgeFramesEq.frames_eq_example. Qed.
 Print Assumptions C02_bridge_write_read_frames_example.
+
+(* ================================================================================================ *)
+(* Round 7 — the closed form of build_class's interpretation step, layer by layer (coq/X12/BridgeFold.v, BridgeClosed.v). *)
+From FB Require X12.BridgeFold X12.BridgeClosed.
+
+(* C01's attribute bookkeeping in closed form (pure C01 vocabulary, every list of attribute values): when no known attribute
+   name occurs twice (once_ok: decidable; an unknown attribute holds bytes, an extendable one a list), folding apply_simple
+   is not an error and the state is the state before plus one slot per known attribute, in file order (a flag attribute
+   stores VSeq []), plus (name, bytes) of every unknown attribute *)
+Theorem C02_bridge_fold_simple_closed : forall impl ctx l st,
+  X12.BridgeFold.once_ok impl ctx (map fst (C01.ClassFile.st_slots st)) l = true ->
+  C01.ClassFile.fold_attrs (C01.ClassFile.apply_simple impl ctx) st l
+  = Ok (X12.BridgeFold.st_add st (flat_map (X12.BridgeFold.slot_of impl ctx) l) (flat_map (X12.BridgeFold.unk_of impl ctx) l)).
+Proof. exact X12.BridgeFold.fold_simple_closed. Qed.
+Print Assumptions C02_bridge_fold_simple_closed.
+
+(* … the same for apply_attr (class and member level), a Record attribute included: its slot is the list of its components,
+   each VSeq [name; descriptor; closed state of its own attributes] (comp_closed); a Code attribute is outside once_oka *)
+Theorem C02_bridge_fold_attr_closed : forall impl p b ctx l st,
+  X12.BridgeFold.once_oka impl ctx (map fst (C01.ClassFile.st_slots st)) (C01.ClassFile.st_had_record st) l = true ->
+  C01.ClassFile.fold_attrs (C01.ClassFile.apply_attr impl p b ctx) st l
+  = Ok (X12.BridgeFold.st_adda st (flat_map (X12.BridgeFold.slot_ofa impl ctx) l) (flat_map (X12.BridgeFold.unk_of impl ctx) l)
+          (existsb (X12.BridgeFold.is_record impl ctx) l)).
+Proof. exact X12.BridgeFold.fold_attr_closed. Qed.
+Print Assumptions C02_bridge_fold_attr_closed.
+
+(* layer 2, fields: C01's build_member on the field values of the whole-file theorem is, for ANY pool and bootstrap table,
+   the direct translation tr_field of the decoded field (flags, name, descriptor, one slot per attribute, unknown attributes) *)
+Theorem C02_bridge_fields_closed : forall impl dec p b d,
+  X12.BridgeClosed.fields_once impl dec d = true ->
+  C01.Pool.map_res (C01.ClassFile.build_member impl p b 1%N) (X12.BridgeClosed.field_vals dec d)
+  = Ok (map (X12.BridgeClosed.tr_field impl dec) (d_fields d)).
+Proof. exact X12.BridgeClosed.fields_closed. Qed.
+Print Assumptions C02_bridge_fields_closed.
+
+(* THE CLOSED FORM, no build_class and no pool on the right-hand side: for every cclass_ok tree whose decoded facts hold no
+   Code and no BootstrapMethods attribute (interfaces, annotation types, abstract classes, module-info, …), under the side
+   conditions of C02_bridge_class_file_every_tree and the decidable once-conditions (no known attribute name twice at a
+   location), C01's read_class on the written bytes IS the direct translation tr_class of the tree:
+   version, flags, this / super / interfaces, every field and method (tr_field / tr_method), the class-level slots
+   (Record with its components) and the unknown attributes *)
+Theorem C02_bridge_read_class_codeless_closed : forall impl dec t bs aux d,
+  cclass_ok t = true -> write_class_aux t = WOK (bs, aux) ->
+  C01.Attr.header_ok C01.Tables.magic (Z.to_N (k_minor t)) (Z.to_N (k_major t)) = true ->
+  X12.BridgeClass.pool_utf8_ok dec (a_pool aux) = true -> X12.BridgeFile6.names_ok6 dec = true ->
+  facts_of t aux = Some d -> X12.BridgeKinds.dclass_side6 impl dec d = true ->
+  X12.BridgeClosed.codeless d = true -> X12.BridgeClosed.class_once impl dec d = true ->
+  X12.BridgeClosed.no_bsm_slot impl dec d = true -> X12.BridgeClosed.fields_once impl dec d = true ->
+  forallb (X12.BridgeClosed.method_once impl dec) (d_methods d) = true ->
+  C01.ClassFile.read_class impl dec bs = Ok (X12.BridgeClosed.tr_class impl dec t d).
+Proof. exact X12.BridgeClosed.read_class_codeless_closed. Qed.
+Print Assumptions C02_bridge_read_class_codeless_closed.
+
+(* what tr_class is (pinned): *)
+Theorem C02_bridge_tr_class_is : forall impl dec t d,
+  X12.BridgeClosed.tr_class impl dec t d
+  = {| C01.ClassFile.cd_minor := Z.to_N (k_minor t); C01.ClassFile.cd_major := Z.to_N (k_major t);
+       C01.ClassFile.cd_access := C01.Attr.access_back 0 (Z.to_N (k_access t));
+       C01.ClassFile.cd_this := X12.BridgePool.sdec dec (k_name t);
+       C01.ClassFile.cd_super := option_map (X12.BridgePool.sdec dec) (k_super t);
+       C01.ClassFile.cd_interfaces := map (X12.BridgePool.sdec dec) (k_interfaces t);
+       C01.ClassFile.cd_fields :=
+         map (fun f => X12.BridgeFold.member_closed impl 1%N (X12.BridgeFile.member_val dec 1%N (X12.BridgeFile6.fattr_val6 dec) f)) (d_fields d);
+       C01.ClassFile.cd_methods :=
+         map (fun m => X12.BridgeFold.member_closed impl 2%N (X12.BridgeFile.member_val dec 2%N (X12.BridgeClosed.mattr_val6 dec) m)) (d_methods d);
+       C01.ClassFile.cd_slots := flat_map (X12.BridgeFold.slot_ofa impl 0%N) (map (X12.BridgeClosed.cattr_val6 dec) (d_attrs d));
+       C01.ClassFile.cd_unknown := flat_map (X12.BridgeFold.unk_of impl 0%N) (map (X12.BridgeClosed.cattr_val6 dec) (d_attrs d)) |}.
+Proof. exact (fun _ _ _ _ => eq_refl). Qed.
+Print Assumptions C02_bridge_tr_class_is.
+
+(* EVERY cclass_ok TREE (Code or not): whatever read_class answers on the written bytes has the translated head, the
+   translated fields, and method by method the translated flags / name / descriptor — and the whole translated method
+   (tr_method) wherever the method has no Code *)
+Theorem C02_bridge_read_class_closed_parts : forall impl dec t bs aux d cd,
+  cclass_ok t = true -> write_class_aux t = WOK (bs, aux) ->
+  C01.Attr.header_ok C01.Tables.magic (Z.to_N (k_minor t)) (Z.to_N (k_major t)) = true ->
+  X12.BridgeClass.pool_utf8_ok dec (a_pool aux) = true -> X12.BridgeFile6.names_ok6 dec = true ->
+  facts_of t aux = Some d -> X12.BridgeKinds.dclass_side6 impl dec d = true -> X12.BridgeClosed.fields_once impl dec d = true ->
+  C01.ClassFile.read_class impl dec bs = Ok cd ->
+  C01.ClassFile.cd_minor cd = Z.to_N (k_minor t) /\ C01.ClassFile.cd_major cd = Z.to_N (k_major t) /\
+  C01.ClassFile.cd_access cd = C01.Attr.access_back 0 (Z.to_N (k_access t)) /\
+  C01.ClassFile.cd_this cd = X12.BridgePool.sdec dec (k_name t) /\
+  C01.ClassFile.cd_super cd = option_map (X12.BridgePool.sdec dec) (k_super t) /\
+  C01.ClassFile.cd_interfaces cd = map (X12.BridgePool.sdec dec) (k_interfaces t) /\
+  C01.ClassFile.cd_fields cd = map (X12.BridgeClosed.tr_field impl dec) (d_fields d) /\
+  Forall2 (fun m md =>
+             C01.ClassFile.md_access md = C01.Attr.access_back 2 (Z.to_N (dm_access m)) /\
+             C01.ClassFile.md_name md = X12.BridgePool.sdec dec (dm_name m) /\
+             C01.ClassFile.md_desc md = X12.BridgePool.sdec dec (dm_desc m) /\
+             (X12.BridgeClosed.no_code m = true -> X12.BridgeClosed.method_once impl dec m = true ->
+              md = X12.BridgeClosed.tr_method impl dec m))
+          (d_methods d) (C01.ClassFile.cd_methods cd).
+Proof. exact X12.BridgeClosed.read_class_closed_parts. Qed.
+Print Assumptions C02_bridge_read_class_closed_parts.
+
+(* non-vacuity: the all-kinds example class with its method made abstract satisfies every hypothesis (computed); the closed
+   form has 14 class-level slots (the Record with its component among them), a method with 7 slots, a field with an unknown attribute *)
+Theorem C02_bridge_read_class_codeless_example : exists bs aux d,
+  write_class_aux X12.BridgeClosed.ex_codeless = WOK (bs, aux) /\ cclass_ok X12.BridgeClosed.ex_codeless = true /\
+  facts_of X12.BridgeClosed.ex_codeless aux = Some d /\
+  X12.BridgeClass.pool_utf8_ok C01.Mutf8.mutf8_dec (a_pool aux) = true /\ X12.BridgeKinds.dclass_side6 true C01.Mutf8.mutf8_dec d = true /\
+  X12.BridgeClosed.codeless d = true /\ X12.BridgeClosed.class_once true C01.Mutf8.mutf8_dec d = true /\
+  X12.BridgeClosed.no_bsm_slot true C01.Mutf8.mutf8_dec d = true /\
+  X12.BridgeClosed.fields_once true C01.Mutf8.mutf8_dec d = true /\
+  forallb (X12.BridgeClosed.method_once true C01.Mutf8.mutf8_dec) (d_methods d) = true /\
+  C01.ClassFile.read_class true C01.Mutf8.mutf8_dec bs = Ok (X12.BridgeClosed.tr_class true C01.Mutf8.mutf8_dec X12.BridgeClosed.ex_codeless d) /\
+  length (C01.ClassFile.cd_slots (X12.BridgeClosed.tr_class true C01.Mutf8.mutf8_dec X12.BridgeClosed.ex_codeless d)) = 14%nat /\
+  map (fun md => length (C01.ClassFile.md_slots md))
+      (C01.ClassFile.cd_methods (X12.BridgeClosed.tr_class true C01.Mutf8.mutf8_dec X12.BridgeClosed.ex_codeless d)) = [7%nat] /\
+  map (fun md => length (C01.ClassFile.md_unknown md))
+      (C01.ClassFile.cd_fields (X12.BridgeClosed.tr_class true C01.Mutf8.mutf8_dec X12.BridgeClosed.ex_codeless d)) = [1%nat].
+Proof. exact X12.BridgeClosed.codeless_example. Qed.
+Print Assumptions C02_bridge_read_class_codeless_example.
+
+(* non-vacuity of C02_bridge_read_class_closed_parts: the all-kinds example (a method with Code) is read, fields_once holds, codeless does not *)
+Theorem C02_bridge_read_class_closed_parts_example : exists bs aux d cd,
+  write_class_aux X12.BridgeFile6.ex_file6 = WOK (bs, aux) /\ facts_of X12.BridgeFile6.ex_file6 aux = Some d /\
+  X12.BridgeClosed.fields_once true C01.Mutf8.mutf8_dec d = true /\
+  C01.ClassFile.read_class true C01.Mutf8.mutf8_dec bs = Ok cd /\ X12.BridgeClosed.codeless d = false.
+Proof. exact X12.BridgeClosed.closed_parts_example. Qed.
+Print Assumptions C02_bridge_read_class_closed_parts_example.
+
+(* ---- the Code attribute: build_code with the attribute bookkeeping computed (any Code value, inner attributes included) ---- *)
+(* pure C01 vocabulary, every list ivs of inner attribute values meeting the decidable code_once (an unknown attribute holds
+   bytes, the table attributes hold lists, at most one StackMapTable, no CLDC StackMap): build_code is code_closed *)
+Theorem C02_bridge_build_code_closed_general : forall impl p b ms ml code exc ivs,
+  X12.BridgeFold.code_once impl ivs = true ->
+  C01.ClassFile.build_code impl p b
+    (C01.Fmt.VSeq [C01.Fmt.VN ms; C01.Fmt.VN ml; C01.Fmt.VB code; C01.Fmt.VList exc; C01.Fmt.VList ivs])
+  = X12.BridgeFold.code_closed impl p b ms ml code exc ivs.
+Proof. exact X12.BridgeFold.build_code_closed_gen. Qed.
+Print Assumptions C02_bridge_build_code_closed_general.
+
+(* what code_closed is (pinned): the tables handed to C01's code-array reader are given explicitly — line numbers = all
+   LineNumberTable entries in file order (ext_of), local-variable ranges = LocalVariableTable entries tagged 0 and
+   LocalVariableTypeTable entries tagged 1 in file order (lvs_of), frames = the entries of the one StackMapTable, offsets
+   of both type-annotation attributes; the description holds the same tables with offsets turned into instruction indices *)
+Theorem C02_bridge_code_closed_is : forall impl p b ms ml code exc ivs,
+  X12.BridgeFold.code_closed impl p b ms ml code exc ivs
+  = Base.Str.bind (C01.Pool.map_res C01.ClassFile.exc_triple exc) (fun ex =>
+    Base.Str.bind (C01.Pool.map_res C01.ClassFile.line_pair (X12.BridgeFold.ext_of impl C01.Formats.a_LineNumberTable ivs)) (fun ln =>
+    Base.Str.bind (C01.Pool.map_res C01.ClassFile.frame_delta (X12.BridgeFold.smt_frames impl ivs)) (fun ds =>
+    let tas := X12.BridgeFold.ext_of impl C01.Formats.a_RuntimeVisibleTypeAnnotations ivs
+               ++ X12.BridgeFold.ext_of impl C01.Formats.a_RuntimeInvisibleTypeAnnotations ivs in
+    let ci := {| C01.Model.ci_code := code; C01.Model.ci_exc := ex; C01.Model.ci_lines := ln;
+                 C01.Model.ci_ranges := flat_map C01.Fmt.ranges_of (X12.BridgeFold.lvs_of impl ivs) ++ flat_map C01.Fmt.ranges_of tas;
+                 C01.Model.ci_frames := ds; C01.Model.ci_cldc := None;
+                 C01.Model.ci_points := flat_map C01.Fmt.pcs_of (X12.BridgeFold.smt_frames impl ivs) ++ flat_map C01.Fmt.pcs_of tas |} in
+    Base.Str.bind (C01.Model.read_code_raw ci) (fun cr =>
+    let cs := C01.Model.sem ci cr in
+    Base.Str.bind (C01.Pool.map_res (C01.ClassFile.resolve_entry p b) (C01.Model.cs_insns cs)) (fun xi =>
+    Ok {| C01.ClassFile.k_max_stack := ms; C01.ClassFile.k_max_locals := ml; C01.ClassFile.k_insns := xi;
+          C01.ClassFile.k_last := C01.Model.cs_last cs;
+          C01.ClassFile.k_exc := map (C01.Fmt.map_pcs (C01.ClassFile.ixf cr)) exc;
+          C01.ClassFile.k_lines := map (C01.Fmt.map_pcs (C01.ClassFile.ixf cr)) (X12.BridgeFold.ext_of impl C01.Formats.a_LineNumberTable ivs);
+          C01.ClassFile.k_lvs := map (C01.Fmt.map_pcs (C01.ClassFile.ixf cr)) (X12.BridgeFold.lvs_of impl ivs);
+          C01.ClassFile.k_frames :=
+            firstn (C01.ClassFile.count_some (map (fun x => snd (fst x)) (C01.Model.cs_insns cs)))
+                   (map (fun f => C01.Fmt.map_pcs (C01.ClassFile.ixf cr) f) (map C01.ClassFile.frame_norm (X12.BridgeFold.smt_frames impl ivs)));
+          C01.ClassFile.k_vta := map (C01.Fmt.map_pcs (C01.ClassFile.ixf cr)) (X12.BridgeFold.ext_of impl C01.Formats.a_RuntimeVisibleTypeAnnotations ivs);
+          C01.ClassFile.k_ita := map (C01.Fmt.map_pcs (C01.ClassFile.ixf cr)) (X12.BridgeFold.ext_of impl C01.Formats.a_RuntimeInvisibleTypeAnnotations ivs);
+          C01.ClassFile.k_unknown := flat_map (X12.BridgeFold.unk_of impl 3%N) ivs |}))))).
+Proof. exact (fun _ _ _ _ _ _ _ _ => eq_refl). Qed.
+Print Assumptions C02_bridge_code_closed_is.
+
+(* … and it applies to every Code value of the whole-file theorem: the values C01's formats deliver for the inner attributes
+   C02's decoder found (code_rel6, under the per-attribute side conditions innerb6) meet code_once as soon as the decoded
+   Code attribute holds at most one StackMapTable (smt_once, decidable; the writer emits at most one) *)
+Theorem C02_bridge_code_attr_closed : forall impl dec p b k cv,
+  X12.BridgeFile6.code_rel6 dec k cv -> forallb (X12.BridgeFile6.innerb6 impl dec) (dc_attrs k) = true ->
+  X12.BridgeClosed.smt_once k = true ->
+  exists ivs, Forall2 (X12.BridgeFile6.inner_rel6 dec) (dc_attrs k) ivs /\ X12.BridgeFold.code_once impl ivs = true /\
+    C01.ClassFile.build_code impl p b cv
+    = X12.BridgeFold.code_closed impl p b (Z.to_N (dc_max_stack k)) (Z.to_N (dc_max_locals k)) (dc_code k)
+        (map (X12.BridgeCode.exc_val dec) (dc_exceptions k)) ivs.
+Proof. exact X12.BridgeClosed.code_closed6. Qed.
+Print Assumptions C02_bridge_code_attr_closed.
+
+(* a method WITH Code: build_member on its value is `do c <- code_closed …; Ok (tr_method_code m c)` — flags, name,
+   descriptor, one slot per other attribute (before and after the Code attribute), the unknown attributes, Some c *)
+Theorem C02_bridge_method_code_closed : forall impl dec p b m v a1 k a2,
+  X12.BridgeClosed.split_code (dm_attrs m) = Some (a1, k, a2) -> X12.BridgeClosed.code_method_once impl dec m = true ->
+  forallb (X12.BridgeFile6.innerb6 impl dec) (dc_attrs k) = true ->
+  X12.BridgeFile3.member_rel dec 2%N (X12.BridgeFile6.mrel6 dec) m v ->
+  exists ivs, Forall2 (X12.BridgeFile6.inner_rel6 dec) (dc_attrs k) ivs /\ X12.BridgeFold.code_once impl ivs = true /\
+    C01.ClassFile.build_member impl p b 2%N v
+    = Base.Str.bind (X12.BridgeFold.code_closed impl p b (Z.to_N (dc_max_stack k)) (Z.to_N (dc_max_locals k)) (dc_code k)
+                       (map (X12.BridgeCode.exc_val dec) (dc_exceptions k)) ivs)
+        (fun c => Ok (X12.BridgeClosed.tr_method_code impl dec m c)).
+Proof. exact X12.BridgeClosed.method_code_closed. Qed.
+Print Assumptions C02_bridge_method_code_closed.
+
+(* EVERY cclass_ok TREE, methods with Code: whatever read_class answers on the written bytes, each method with a Code
+   attribute (under the decidable code_method_once) is tr_method_code m c where c is what code_closed returns on the decoded
+   Code attribute, for the pool as read and the bootstrap table the reader extracted.  Together with
+   C02_bridge_read_class_closed_parts: build_class's interpretation step is computed everywhere except inside code_closed
+   (C01's code-array reader on explicit tables — the object of C02_bridge_write_read_frames — and resolve_entry) *)
+Theorem C02_bridge_read_class_closed_code_methods : forall impl dec t bs aux d cd,
+  cclass_ok t = true -> write_class_aux t = WOK (bs, aux) ->
+  C01.Attr.header_ok C01.Tables.magic (Z.to_N (k_minor t)) (Z.to_N (k_major t)) = true ->
+  X12.BridgeClass.pool_utf8_ok dec (a_pool aux) = true -> X12.BridgeFile6.names_ok6 dec = true ->
+  facts_of t aux = Some d -> X12.BridgeKinds.dclass_side6 impl dec d = true ->
+  C01.ClassFile.read_class impl dec bs = Ok cd ->
+  exists cs b, rev (p_inner (a_pool aux)) = map mk cs /\
+    Forall2 (fun m md =>
+               forall a1 k a2, X12.BridgeClosed.split_code (dm_attrs m) = Some (a1, k, a2) ->
+                 X12.BridgeClosed.code_method_once impl dec m = true ->
+                 exists ivs c, Forall2 (X12.BridgeFile6.inner_rel6 dec) (dc_attrs k) ivs /\ X12.BridgeFold.code_once impl ivs = true /\
+                   X12.BridgeFold.code_closed impl (X12.BridgePool.rpool dec cs) b (Z.to_N (dc_max_stack k)) (Z.to_N (dc_max_locals k))
+                     (dc_code k) (map (X12.BridgeCode.exc_val dec) (dc_exceptions k)) ivs = Ok c /\
+                   md = X12.BridgeClosed.tr_method_code impl dec m c)
+            (d_methods d) (C01.ClassFile.cd_methods cd).
+Proof. exact X12.BridgeClosed.read_class_closed_code_methods. Qed.
+Print Assumptions C02_bridge_read_class_closed_code_methods.
+
+(* non-vacuity: the method of the all-kinds example meets code_method_once; read back, its code description has 3
+   instructions, 1 line number, 1 attached frame, 2 visible type annotations and 1 unknown attribute *)
+Theorem C02_bridge_code_methods_example : exists bs aux d cd,
+  write_class_aux X12.BridgeFile6.ex_file6 = WOK (bs, aux) /\ facts_of X12.BridgeFile6.ex_file6 aux = Some d /\
+  forallb (X12.BridgeClosed.code_method_once true C01.Mutf8.mutf8_dec) (d_methods d) = true /\
+  C01.ClassFile.read_class true C01.Mutf8.mutf8_dec bs = Ok cd /\
+  map (fun md => match C01.ClassFile.md_code md with
+                 | Some c => (length (C01.ClassFile.k_insns c), length (C01.ClassFile.k_lines c), length (C01.ClassFile.k_frames c),
+                              length (C01.ClassFile.k_vta c), length (C01.ClassFile.k_unknown c))
+                 | None => (0, 0, 0, 0, 0)%nat
+                 end) (C01.ClassFile.cd_methods cd) = [(3, 1, 1, 2, 1)%nat].
+Proof. exact X12.BridgeClosed.code_methods_example. Qed.
+Print Assumptions C02_bridge_code_methods_example.
+
+(* ---- the once-condition of the fields is a theorem (coq/X12/BridgeOnce.v) ---- *)
+From FB Require X12.BridgeOnce.
+(* facts_of lists a field's attributes in a fixed order, each named attribute at most once, then the unknown attributes;
+   so fields_once follows from the side conditions of the whole-file theorem *)
+Theorem C02_bridge_fields_once_written : forall impl dec t aux d,
+  facts_of t aux = Some d -> X12.BridgeKinds.dclass_side6 impl dec d = true -> X12.BridgeClosed.fields_once impl dec d = true.
+Proof. exact X12.BridgeOnce.fields_once_written. Qed.
+Print Assumptions C02_bridge_fields_once_written.
+
+(* … and so does method_once for every method without Code (Deprecated, Synthetic, Exceptions, Signature, the four annotation
+   attributes, AnnotationDefault, MethodParameters, each at most once, then the unknown attributes) *)
+Theorem C02_bridge_methods_once_written : forall impl dec t aux d,
+  facts_of t aux = Some d -> X12.BridgeKinds.dclass_side6 impl dec d = true ->
+  forall m, In m (d_methods d) -> X12.BridgeClosed.no_code m = true -> X12.BridgeClosed.method_once impl dec m = true.
+Proof. exact X12.BridgeOnce.methods_once_written. Qed.
+Print Assumptions C02_bridge_methods_once_written.
+
+(* C02_bridge_read_class_closed_parts under the hypotheses of C02_bridge_class_file_every_tree ALONE (no once-condition
+   left): for EVERY cclass_ok tree, whatever read_class answers on the written bytes has the translated version, flags,
+   this / super / interfaces, the translated fields (tr_field), the translated flags / name / descriptor of every method, and
+   every method without Code IS tr_method *)
+Theorem C02_bridge_read_class_closed_parts_all : forall impl dec t bs aux d cd,
+  cclass_ok t = true -> write_class_aux t = WOK (bs, aux) ->
+  C01.Attr.header_ok C01.Tables.magic (Z.to_N (k_minor t)) (Z.to_N (k_major t)) = true ->
+  X12.BridgeClass.pool_utf8_ok dec (a_pool aux) = true -> X12.BridgeFile6.names_ok6 dec = true ->
+  facts_of t aux = Some d -> X12.BridgeKinds.dclass_side6 impl dec d = true ->
+  C01.ClassFile.read_class impl dec bs = Ok cd ->
+  C01.ClassFile.cd_minor cd = Z.to_N (k_minor t) /\ C01.ClassFile.cd_major cd = Z.to_N (k_major t) /\
+  C01.ClassFile.cd_access cd = C01.Attr.access_back 0 (Z.to_N (k_access t)) /\
+  C01.ClassFile.cd_this cd = X12.BridgePool.sdec dec (k_name t) /\
+  C01.ClassFile.cd_super cd = option_map (X12.BridgePool.sdec dec) (k_super t) /\
+  C01.ClassFile.cd_interfaces cd = map (X12.BridgePool.sdec dec) (k_interfaces t) /\
+  C01.ClassFile.cd_fields cd = map (X12.BridgeClosed.tr_field impl dec) (d_fields d) /\
+  Forall2 (fun m md =>
+             C01.ClassFile.md_access md = C01.Attr.access_back 2 (Z.to_N (dm_access m)) /\
+             C01.ClassFile.md_name md = X12.BridgePool.sdec dec (dm_name m) /\
+             C01.ClassFile.md_desc md = X12.BridgePool.sdec dec (dm_desc m) /\
+             (X12.BridgeClosed.no_code m = true -> md = X12.BridgeClosed.tr_method impl dec m))
+          (d_methods d) (C01.ClassFile.cd_methods cd).
+Proof. exact X12.BridgeOnce.read_class_closed_parts_final. Qed.
+Print Assumptions C02_bridge_read_class_closed_parts_all.
+
+(* the closed form for a class without Code and BootstrapMethods with the field and method once-conditions discharged: the
+   remaining decidable conditions are class-level only (class_once: no known class attribute name twice, no_bsm_slot) *)
+Theorem C02_bridge_read_class_codeless_closed_all : forall impl dec t bs aux d,
+  cclass_ok t = true -> write_class_aux t = WOK (bs, aux) ->
+  C01.Attr.header_ok C01.Tables.magic (Z.to_N (k_minor t)) (Z.to_N (k_major t)) = true ->
+  X12.BridgeClass.pool_utf8_ok dec (a_pool aux) = true -> X12.BridgeFile6.names_ok6 dec = true ->
+  facts_of t aux = Some d -> X12.BridgeKinds.dclass_side6 impl dec d = true ->
+  X12.BridgeClosed.codeless d = true -> X12.BridgeClosed.class_once impl dec d = true ->
+  X12.BridgeClosed.no_bsm_slot impl dec d = true ->
+  C01.ClassFile.read_class impl dec bs = Ok (X12.BridgeClosed.tr_class impl dec t d).
+Proof. exact X12.BridgeOnce.read_class_codeless_closed_all. Qed.
+Print Assumptions C02_bridge_read_class_codeless_closed_all.
+
+(* ---- the once-conditions of a method WITH Code are theorems as well (coq/X12/BridgeOnce.v) ---- *)
+(* a Code attribute of facts_of holds at most one StackMapTable: the hypothesis smt_once of C02_bridge_code_attr_closed holds
+   for every Code attribute the writer's facts contain *)
+Theorem C02_bridge_smt_once_written : forall c a k, fa_code c a = Some k -> X12.BridgeClosed.smt_once k = true.
+Proof. exact X12.BridgeOnce.smt_once_written. Qed.
+Print Assumptions C02_bridge_smt_once_written.
+
+(* every method of the decoded class of a written tree meets code_method_once or has no Code *)
+Theorem C02_bridge_code_methods_once_written : forall impl dec t aux d,
+  facts_of t aux = Some d -> X12.BridgeKinds.dclass_side6 impl dec d = true ->
+  forall m, In m (d_methods d) -> X12.BridgeClosed.code_method_once impl dec m = true \/ X12.BridgeClosed.no_code m = true.
+Proof. exact X12.BridgeOnce.code_methods_once_written. Qed.
+Print Assumptions C02_bridge_code_methods_once_written.
+
+(* C02_bridge_read_class_closed_code_methods under the hypotheses of C02_bridge_class_file_every_tree ALONE: for EVERY
+   cclass_ok tree, every method with a Code attribute of whatever read_class answers is tr_method_code m c, c being what
+   code_closed returns on the decoded Code attribute (pool as read, bootstrap table as extracted by the reader) *)
+Theorem C02_bridge_read_class_closed_code_methods_all : forall impl dec t bs aux d cd,
+  cclass_ok t = true -> write_class_aux t = WOK (bs, aux) ->
+  C01.Attr.header_ok C01.Tables.magic (Z.to_N (k_minor t)) (Z.to_N (k_major t)) = true ->
+  X12.BridgeClass.pool_utf8_ok dec (a_pool aux) = true -> X12.BridgeFile6.names_ok6 dec = true ->
+  facts_of t aux = Some d -> X12.BridgeKinds.dclass_side6 impl dec d = true ->
+  C01.ClassFile.read_class impl dec bs = Ok cd ->
+  exists cs b, rev (p_inner (a_pool aux)) = map mk cs /\
+    Forall2 (fun m md =>
+               forall a1 k a2, X12.BridgeClosed.split_code (dm_attrs m) = Some (a1, k, a2) ->
+                 exists ivs c, Forall2 (X12.BridgeFile6.inner_rel6 dec) (dc_attrs k) ivs /\ X12.BridgeFold.code_once impl ivs = true /\
+                   X12.BridgeFold.code_closed impl (X12.BridgePool.rpool dec cs) b (Z.to_N (dc_max_stack k)) (Z.to_N (dc_max_locals k))
+                     (dc_code k) (map (X12.BridgeCode.exc_val dec) (dc_exceptions k)) ivs = Ok c /\
+                   md = X12.BridgeClosed.tr_method_code impl dec m c)
+            (d_methods d) (C01.ClassFile.cd_methods cd).
+Proof. exact X12.BridgeOnce.read_class_closed_code_methods_all. Qed.
+Print Assumptions C02_bridge_read_class_closed_code_methods_all.
